@@ -31,7 +31,7 @@ func init() {
 	fw.Register(&fw.Property{
 		ID:    "C02",
 		Level: "fault_enumeration",
-		Rule: "one case = one data directory going through 4-7 rounds; in every round a child process (real clock, WAL synced on write, flush latency 2-20ms, 3 tables incl. one with a WHERE) inserts fresh unique ids logging TRY before and ACK after each insert and is killed " +
+		Rule: "one case = one data directory going through 4-7 rounds; in every round a child process (real clock, WAL synced on write, flush latency 2-20ms, 4 tables incl. one with a WHERE and one with one incompressible 2.5 KB row per id, so that its flushes span many 64 KB blocks) inserts fresh unique ids logging TRY before and ACK after each insert and is killed " +
 			"(a) at a named instrumented point at its n-th hit — the (point, occurrence) pairs are enumerated from a dry run's hit counts over all cases of the tier — or (b) by an asynchronous SIGKILL after the K-th ACK plus a PRNG micro-delay, or (c) not at all (clean close); " +
 			"after every round a verifier child restarts on the directory, waits for exact quiescence and decodes every table (value 3^j encoding, memstore-inclusive, and disk-only after a flush): " +
 			"acknowledged ids must have multiplicity 1, the in-flight id at most 1, never attempted ids 0, in every table (the WHERE table only for matching ids); " +
@@ -56,6 +56,40 @@ var c02Defs = []dbh.TableDef{
 	{Name: "t_all", SQL: "SELECT SUM(v) AS v FROM inbound GROUP BY k, period(1h)", Retention: 48 * time.Hour, Stream: "inbound"},
 	{Name: "t_where", SQL: "SELECT SUM(v) AS v FROM inbound WHERE odd = 1 GROUP BY k, period(1h)", Retention: 48 * time.Hour, Stream: "inbound"},
 	{Name: "t_both", SQL: "SELECT SUM(v) AS v, COUNT(v) AS c FROM inbound GROUP BY k, odd, period(1h)", Retention: 48 * time.Hour, Stream: "inbound"},
+	// one row of 2.5 KB (incompressible) per id: a flush of this table writes many 64 KB blocks of the
+	// compressed stream and most rows any flush writes are its rows, so a kill in the middle of a row loop
+	// usually leaves a partially written output file behind (not just an empty one)
+	{Name: "t_fat", SQL: "SELECT SUM(v) AS v FROM inbound GROUP BY k, sub, pad, period(1h)", Retention: 48 * time.Hour, Stream: "inbound"},
+}
+
+func c02Pad(i int) string {
+	r := rand.New(rand.NewSource(int64(i) + 77))
+	b := make([]byte, 2500)
+	for j := range b {
+		b[j] = byte('0' + r.Intn(75))
+	}
+	return string(b)
+}
+
+// c02PartialTemp reports whether a flush output file that is still being written already has content on
+// disk: a non-empty "nextrowstore*" file in the child's private TMPDIR or a non-empty "*.tmp" file in a
+// table directory. Only a flush that has written more than one 64 KB block is in that state.
+func c02PartialTemp(tmpDir, dbDir string, old map[string]bool) bool {
+	for _, n := range c02TempFiles(tmpDir, dbDir) {
+		if old[n] {
+			continue // left behind by an earlier kill
+		}
+		if st, err := os.Stat(n); err == nil && st.Size() > 0 {
+			return true
+		}
+	}
+	return false
+}
+
+func c02TempFiles(tmpDir, dbDir string) []string {
+	a, _ := filepath.Glob(filepath.Join(tmpDir, "nextrowstore*"))
+	b, _ := filepath.Glob(filepath.Join(dbDir, "*", "*.tmp"))
+	return append(a, b...)
 }
 
 // c02Child: vcheck c02child insert <dir> <startID> <count> <flushMS> <base unix> | verify <dir> | counts (via env VERIF_COUNTS)
@@ -88,7 +122,7 @@ func c02Child(args []string) int {
 		fmt.Fprintf(out, "OPEN\n")
 		for i := start; i < start+count; i++ {
 			fmt.Fprintf(out, "TRY %d\n", i)
-			err := db.Insert("inbound", base.Add(time.Duration(i%3000)*time.Second), map[string]interface{}{"k": fmt.Sprintf("c%05d", i/30), "odd": i % 2}, map[string]interface{}{"v": math.Pow(3, float64(i%30))})
+			err := db.Insert("inbound", base.Add(time.Duration(i%3000)*time.Second), map[string]interface{}{"k": fmt.Sprintf("c%05d", i/30), "odd": i % 2, "sub": i % 30, "pad": c02Pad(i)}, map[string]interface{}{"v": math.Pow(3, float64(i%30))})
 			if err != nil {
 				fmt.Fprintf(out, "ERR %d %v\n", i, err)
 				continue
@@ -163,7 +197,16 @@ func c02RunChild(c *fw.Ctx, env []string, timeout time.Duration, killAfterAcks i
 	outF, _ := os.Create(outPath)
 	errF, _ := os.Create(outPath + ".err")
 	cmd := exec.Command(bin, append([]string{"c02child"}, args...)...)
-	cmd.Env = append(os.Environ(), env...)
+	// a private TMPDIR per case: zenodb writes its flush output there before renaming it into the table directory
+	childTmp := filepath.Join(c.Dir, "childtmp")
+	os.MkdirAll(childTmp, 0755)
+	cmd.Env = append(append(os.Environ(), env...), "TMPDIR="+childTmp)
+	oldTemp := map[string]bool{}
+	if len(args) > 1 {
+		for _, n := range c02TempFiles(childTmp, args[1]) {
+			oldTemp[n] = true
+		}
+	}
 	cmd.Stdout = outF
 	cmd.Stderr = errF
 	if err := cmd.Start(); err != nil {
@@ -199,6 +242,12 @@ loop:
 			err = fmt.Errorf("child watchdog after %v; main goroutine: %s", timeout, dump)
 			break loop
 		case <-tick.C:
+			if killAfterAcks < 0 && !killed && len(args) > 1 && c02PartialTemp(childTmp, args[1], oldTemp) {
+				// kill while a flush has part of its output on disk
+				cmd.Process.Signal(syscall.SIGKILL)
+				killed = true
+				c.Obs("kills_with_partial_flush_output_on_disk", 1)
+			}
 			if killAfterAcks > 0 && !killed {
 				data, _ := os.ReadFile(outPath)
 				if strings.Count(string(data), "ACK ") >= killAfterAcks {
@@ -311,9 +360,16 @@ func runC02(c *fw.Ctx) {
 			p := pairs[(c.Case*5+ri*7+r.Intn(3))%len(pairs)]
 			if ri == 0 {
 				p = pairs[(c.Case*3)%len(pairs)]
+			} else if r.Intn(4) == 0 {
+				// deep inside the row loop of a flush (later rounds rewrite more and more rows)
+				p = po{"flush.row", int64(30 + r.Intn(150*ri))}
 			}
 			rd.point, rd.n = p.name, p.n
 			env = append(env, fmt.Sprintf("VERIF_CRASH=%s:%d", p.name, p.n))
+		case (k == 7 || k == 8) && ri > 0:
+			// SIGKILL as soon as a flush has part of its output on disk (a flush of more than 64 KB, i.e. of the table with 6 KB rows)
+			rd.kind = "partial"
+			killAcks = -1
 		default:
 			rd.kind = "async"
 			rd.killAt = 1 + r.Intn(perRound-1)
@@ -356,6 +412,14 @@ func runC02(c *fw.Ctx) {
 				}
 			} else {
 				c.Obs("named_points_not_reached", 1)
+			}
+		}
+		if rd.kind == "partial" {
+			desc += " SIGKILL when a flush has part of its output on disk"
+			c.HashAdd("partial", ri)
+			if died {
+				c.Obs("partial_output_kills", 1)
+				nontrivial = true
 			}
 		}
 		if rd.kind == "async" {
@@ -408,7 +472,7 @@ func runC02(c *fw.Ctx) {
 		}
 		// decode and check the history
 		for _, tag := range []string{"mem", "disk"} {
-			for _, tbl := range []string{"t_all", "t_where", "t_both"} {
+			for _, tbl := range []string{"t_all", "t_where", "t_both", "t_fat"} {
 				mult := map[int]int{}
 				for cell, sp := range sums[tag+"/"+tbl] {
 					var cn int
